@@ -11,35 +11,49 @@ import (
 	"github.com/goplus/llgo/runtime/internal/vn/psync"
 )
 
-func LoadUint32(addr *uint32) uint32 { psync.Yield("ld"); return *addr }
+// YieldAfter adds a second scheduling point AFTER every access ("fine" mode of the harness).  The code under test keeps
+// its non-atomic shared fields (st.waiters) under a mutex, so the coarse mode (park before the access only) already
+// shows every interleaving of the code as it is; the fine mode also separates an atomic access from the plain code that
+// follows it, which is what exposes a change that moves such a field out of the lock.  It is used for the search of
+// failing schedules judged against the specification (no model comparison).
+var YieldAfter bool
+
+func after(what string) {
+	if YieldAfter {
+		psync.Yield(what + "+")
+	}
+}
+
+func LoadUint32(addr *uint32) uint32 { psync.Yield("ld"); r := *addr; after("ld"); return r }
 func LoadInt32(addr *int32) int32    { psync.Yield("ld"); return *addr }
-func LoadUint64(addr *uint64) uint64 { psync.Yield("ld"); return *addr }
+func LoadUint64(addr *uint64) uint64 { psync.Yield("ld"); r := *addr; after("ld"); return r }
 func LoadInt64(addr *int64) int64    { psync.Yield("ld"); return *addr }
-func LoadUintptr(addr *uintptr) uintptr { psync.Yield("ld"); return *addr }
-func LoadPointer(addr *unsafe.Pointer) unsafe.Pointer { psync.Yield("ld"); return *addr }
+func LoadUintptr(addr *uintptr) uintptr { psync.Yield("ld"); r := *addr; after("ld"); return r }
+func LoadPointer(addr *unsafe.Pointer) unsafe.Pointer { psync.Yield("ld"); r := *addr; after("ld"); return r }
 
-func StoreUint32(addr *uint32, v uint32) { psync.Yield("st"); *addr = v }
+func StoreUint32(addr *uint32, v uint32) { psync.Yield("st"); *addr = v; after("st") }
 func StoreInt32(addr *int32, v int32)    { psync.Yield("st"); *addr = v }
-func StoreUint64(addr *uint64, v uint64) { psync.Yield("st"); *addr = v }
+func StoreUint64(addr *uint64, v uint64) { psync.Yield("st"); *addr = v; after("st") }
 func StoreInt64(addr *int64, v int64)    { psync.Yield("st"); *addr = v }
-func StoreUintptr(addr *uintptr, v uintptr) { psync.Yield("st"); *addr = v }
-func StorePointer(addr *unsafe.Pointer, v unsafe.Pointer) { psync.Yield("st"); *addr = v }
+func StoreUintptr(addr *uintptr, v uintptr) { psync.Yield("st"); *addr = v; after("st") }
+func StorePointer(addr *unsafe.Pointer, v unsafe.Pointer) { psync.Yield("st"); *addr = v; after("st") }
 
-func AddUint32(addr *uint32, d uint32) uint32 { psync.Yield("add"); *addr += d; return *addr }
+func AddUint32(addr *uint32, d uint32) uint32 { psync.Yield("add"); *addr += d; r := *addr; after("add"); return r }
 func AddInt32(addr *int32, d int32) int32     { psync.Yield("add"); *addr += d; return *addr }
-func AddUint64(addr *uint64, d uint64) uint64 { psync.Yield("add"); *addr += d; return *addr }
+func AddUint64(addr *uint64, d uint64) uint64 { psync.Yield("add"); *addr += d; r := *addr; after("add"); return r }
 func AddInt64(addr *int64, d int64) int64     { psync.Yield("add"); *addr += d; return *addr }
-func AddUintptr(addr *uintptr, d uintptr) uintptr { psync.Yield("add"); *addr += d; return *addr }
+func AddUintptr(addr *uintptr, d uintptr) uintptr { psync.Yield("add"); *addr += d; r := *addr; after("add"); return r }
 
-func SwapUint32(addr *uint32, v uint32) uint32 { psync.Yield("swap"); o := *addr; *addr = v; return o }
+func SwapUint32(addr *uint32, v uint32) uint32 { psync.Yield("swap"); o := *addr; *addr = v; r := o; after("swap"); return r }
 func SwapInt32(addr *int32, v int32) int32     { psync.Yield("swap"); o := *addr; *addr = v; return o }
-func SwapUint64(addr *uint64, v uint64) uint64 { psync.Yield("swap"); o := *addr; *addr = v; return o }
+func SwapUint64(addr *uint64, v uint64) uint64 { psync.Yield("swap"); o := *addr; *addr = v; r := o; after("swap"); return r }
 func SwapInt64(addr *int64, v int64) int64     { psync.Yield("swap"); o := *addr; *addr = v; return o }
-func SwapUintptr(addr *uintptr, v uintptr) uintptr { psync.Yield("swap"); o := *addr; *addr = v; return o }
+func SwapUintptr(addr *uintptr, v uintptr) uintptr { psync.Yield("swap"); o := *addr; *addr = v; r := o; after("swap"); return r }
 func SwapPointer(addr *unsafe.Pointer, v unsafe.Pointer) unsafe.Pointer {
 	psync.Yield("swap")
 	o := *addr
 	*addr = v
+	after("swap")
 	return o
 }
 
@@ -47,48 +61,60 @@ func CompareAndSwapUint32(addr *uint32, old, new uint32) bool {
 	psync.Yield("cas")
 	if *addr == old {
 		*addr = new
+		after("cas")
 		return true
 	}
+	after("cas")
 	return false
 }
 func CompareAndSwapInt32(addr *int32, old, new int32) bool {
 	psync.Yield("cas")
 	if *addr == old {
 		*addr = new
+		after("cas")
 		return true
 	}
+	after("cas")
 	return false
 }
 func CompareAndSwapUint64(addr *uint64, old, new uint64) bool {
 	psync.Yield("cas")
 	if *addr == old {
 		*addr = new
+		after("cas")
 		return true
 	}
+	after("cas")
 	return false
 }
 func CompareAndSwapInt64(addr *int64, old, new int64) bool {
 	psync.Yield("cas")
 	if *addr == old {
 		*addr = new
+		after("cas")
 		return true
 	}
+	after("cas")
 	return false
 }
 func CompareAndSwapUintptr(addr *uintptr, old, new uintptr) bool {
 	psync.Yield("cas")
 	if *addr == old {
 		*addr = new
+		after("cas")
 		return true
 	}
+	after("cas")
 	return false
 }
 func CompareAndSwapPointer(addr *unsafe.Pointer, old, new unsafe.Pointer) bool {
 	psync.Yield("cas")
 	if *addr == old {
 		*addr = new
+		after("cas")
 		return true
 	}
+	after("cas")
 	return false
 }
 
